@@ -1,26 +1,38 @@
-"""run.py — entry point:  python -m harness.run <Cxx> [--tier quick|thorough] [--replay file]"""
+"""run.py — entry point:  python -m harness.run <Cxx> [--tier quick|thorough] [--replay file]
+
+The property module runs in a CHILD process; the parent survives crashes (segfaults)
+and hangs of the implementation under test and turns them into a verdict with the
+last recorded breadcrumb (the input being processed) as the replay."""
 import argparse
 import importlib
+import json
 import os
+import subprocess
 import sys
+import time
 import traceback
 
 from harness import common
 
 
-def main():
+def parse():
     ap = argparse.ArgumentParser()
     ap.add_argument("pid")
     ap.add_argument("--tier", default=os.environ.get("VERIF_TIER", "quick"))
     ap.add_argument("--replay", default=None)
+    ap.add_argument("--child", action="store_true")
     a = ap.parse_args()
-    tier = a.tier if a.tier in ("quick", "thorough") else "quick"
+    a.tier = a.tier if a.tier in ("quick", "thorough") else "quick"
     try:
-        seed = int(os.environ.get("VERIF_SEED", "20261001"))
+        a.seed = int(os.environ.get("VERIF_SEED", "20261001"))
     except ValueError:
-        seed = 20261001
+        a.seed = 20261001
+    return a
+
+
+def child(a):
     common.setup_impl_env()
-    ctx = common.Ctx(a.pid, tier, seed)
+    ctx = common.Ctx(a.pid, a.tier, a.seed)
     try:
         mod = importlib.import_module("harness.props.%s" % a.pid)
     except ModuleNotFoundError:
@@ -32,9 +44,58 @@ def main():
         mod.run(ctx)
     except Exception:
         tb = traceback.format_exc()
-        ctx.violation("harness-error", "the check itself failed: %s" % tb.splitlines()[-1],
-                      dict(traceback=tb), found_input=False)
+        crumb = common.read_crumb(a.pid)
+        ctx.violation("harness-error", "the check failed with an exception: %s" % tb.strip().splitlines()[-1][:300],
+                      dict(traceback=tb[-3000:], last_input=crumb), found_input=crumb is not None)
+    rc = ctx.finish()
+    common.write_verdict(a.pid, rc)
+    return rc
+
+
+def parent(a):
+    t0 = time.time()
+    common.clear_crumb(a.pid)
+    common.clear_verdict(a.pid)
+    limit = int(os.environ.get("VERIF_TIMEOUT", "2400" if a.tier == "quick" else "14400"))
+    cmd = [sys.executable, "-m", "harness.run", a.pid, "--tier", a.tier, "--child"] + (["--replay", a.replay] if a.replay else [])
+    p = subprocess.Popen(cmd)
+    try:
+        rc = p.wait(timeout=limit)
+        timed_out = False
+    except subprocess.TimeoutExpired:
+        p.kill()
+        p.wait()
+        rc = None
+        timed_out = True
+    v = common.read_verdict(a.pid)
+    if v is not None and rc in (0, 1) and v == rc:
+        return rc
+    if rc == 2 and v is None:
+        return 2
+    # crash or hang of the implementation under test
+    crumb = common.read_crumb(a.pid)
+    ctx = common.Ctx(a.pid, a.tier, a.seed)
+    ctx.t0 = t0
+    ctx.proof = dict(build_ok=True, props_ok=True, qed=0)
+    what = ("the implementation did not return within %d s" % limit) if timed_out else \
+        ("the process running the implementation died (exit status %s%s)" % (rc, ", signal %d" % -rc if rc is not None and rc < 0 else ""))
+    ctx.notes["rule"] = "check aborted: " + what
+    ctx.evaluations = 1
+    ctx.nontrivial.update({"crash", "abort"})
+    ctx.sample(dict(last_input=crumb))
+    ctx.violation("impl-crash" if not timed_out else "impl-hang",
+                  "%s while processing the recorded input" % what if crumb is not None else what,
+                  dict(last_input=crumb, exit_status=rc, timed_out=timed_out), found_input=crumb is not None)
+    ctx.level = "other"
+    ctx.notes["explanation"] = what
     return ctx.finish()
+
+
+def main():
+    a = parse()
+    if a.child:
+        return child(a)
+    return parent(a)
 
 
 if __name__ == "__main__":
